@@ -480,6 +480,17 @@ class Engine:
         self.count("op_fit")
         if not ok:
             self.count("fit_returned_false")
+            # a refused fit on finite, well-conditioned data: no model reproduces / least-squares-fits the data
+            try:
+                W = md.interpolation_matrix()[0]
+                p_ = md.npt()
+                fin = bool(np.all(np.isfinite(W)) and np.all(np.isfinite(md.fval_v[:p_, :])))
+                kap = float(np.linalg.cond(W)) if fin else float("inf")
+            except Exception:
+                fin, kap = False, float("inf")
+            if fin and kap <= 1e8:
+                self.fail("C16:fit-refused", "interpolate_mini_models_svd returned ok=False on finite data with cond(W) = %.2e (npt=%d of %d, n=%d)"
+                          % (kap, md.npt(), md.num_pts, self.cfg.n))
             return
         if not md.factorisation_current:
             self.fail("C16:fit-leaves-flag-clear", "factorisation_current is False right after a successful fit")
